@@ -187,8 +187,9 @@ def s2(I):
             I.check('full_close_only_for_equal_amount', smt.Eq(camt, amt))
     else:
         I.cover('partial', HINT)
-        newp = get_position(I, 'p-8')
-        I.check('partial_creates_generated_id', newp is not None)
+        fresh = [q for q in all_positions(I) if q.get('identifier') not in ('u-a', 'u-b')]
+        newp = fresh[0] if len(fresh) == 1 else None
+        I.check('partial_close_creates_exactly_one_new_position', newp is not None)
         if newp is not None:
             I.check('split_conserves_lp', smt.Eq(newp.get('lp_asset').get('amount') + p.get('lp_asset').get('amount'), amt))
             I.check('new_part_is_closed_for_owner', newp.get('open') is False and newp.get('receiver') == 'alice'
@@ -232,8 +233,10 @@ def s3(I):
     I.cover('ok', HINT)
     I.check('creating_for_others_needs_pool_manager', authorised)
     I.check('existing_id_refused', ik != 2)
-    p = get_position(I, expected_id)
-    I.check('stored_under_prefixed_id', p is not None)
+    # the new position is whichever one did not exist before (the identifier format -- u- / p- prefixes -- is not part of the property)
+    fresh = [q for q in all_positions(I) if q.get('identifier') != 'u-taken']
+    I.check('exactly_one_position_created', len(fresh) == 1)
+    p = fresh[0] if len(fresh) == 1 else None
     if p is not None:
         I.check('records_attached_lp', smt.Eq(p.get('lp_asset').get('amount'), amt) and p.get('lp_asset').get('denom') == LP1)
         I.check('owner_is_receiver', p.get('receiver') == recv_addr)
